@@ -1,6 +1,5 @@
-import CacheVerif.Proofs.DeepCacheOf
-import CacheVerif.Proofs.DeepTrace
-import CacheVerif.Proofs.ConcCacheSolo
+import CacheVerif.Proofs.DeepSimpSet
+import CacheVerif.Proofs.DeepTraceCommon
 /-!
 # The steps of M5 are the atomic actions of the source text
 
@@ -16,8 +15,7 @@ compute) this ties the hand-written M5 to the text of `xsync_mapof.go`, up to th
 namespace DeepTraceOf
 open Deep Model Spec Model.ConcCache Proofs.ConcCacheSolo
 variable {K V : Type} [DecidableEq K] [Inhabited V]
-
-open DeepTrace
+open DeepTraceCommon
 
 theorem ofx (e now : Int) : Gen.itemOf_expired e now = Gen.item_expired e now := by
   simp [Gen.itemOf_expired, Gen.item_expired]
